@@ -277,6 +277,7 @@ def judge_decode(pdu, data, tag, out, cov):
         return
     if verdict[0] == "open":
         cov["open_accepted" if got is not None else "open_rejected"] += 1
+        cov["open_%s_%s" % ("v0rx_odd_length" if pdu == "v0rx" else "mod_111x", "accepted" if got is not None else "rejected")] += 1
         if got is not None and not any(first_diff(got, a) is None for a in verdict[1]):
             out.append(("C17:%s:%s:open-misread" % (pdu, tag), case,
                         "from_bytes() accepted a datagram the statement leaves open but read it as %s" % brief(got)))
